@@ -54,6 +54,10 @@ def _comp_filter_eval(v, assume):
     if not isinstance(v, tuple) or not v:
         return v
     v = tuple(_comp_filter_eval(x, assume) if isinstance(x, tuple) else x for x in v)
+    # filter(None, [..literal..])  ==  (s for s in [..literal..] if s)
+    if v[0] == "call" and v[1] == ("global", "filter") and len(v[2]) == 2 and not v[3] and v[2][0] == ("const", None) and v[2][1][0] in ("list", "tuple"):
+        bv = ("bv", "_f", 0)
+        v = ("comp", "gen", bv, ((bv, v[2][1], (bv,)),))
     if v[0] == "comp" and len(v[3]) == 1:
         tg, it, ifs = v[3][0]
         if tg is not None and tg[0] == "bv" and it[0] in ("list", "tuple") and v[2] == tg and tuple(ifs) == (tg,):
@@ -88,12 +92,86 @@ def surface_helper(pkg) -> str:
     return "_rate_surface"
 
 
+_LITERAL_NODES = (ast.Constant, ast.Tuple, ast.List, ast.Set, ast.Dict, ast.Attribute, ast.Name, ast.UnaryOp, ast.USub, ast.UAdd, ast.Load)
+
+
+def _literal_like(node) -> bool:
+    """a display of constants / enum members / other names: evaluating it runs nothing"""
+    return all(isinstance(n, _LITERAL_NODES) for n in ast.walk(node))
+
+
+def _ev_literal(node, consts=None):
+    """IR of a literal-like expression outside any function"""
+    dummy = ast.parse("def _():\n    pass").body[0]
+    return Flow(dummy, consts=consts or {}).ev(node)
+
+
 class RateModel:
     def __init__(self, tree):
         self.tree = tree
         self.pkg = package(tree)
         self._flows = {}
         self._enum = None
+        self._mconsts = {}
+        self._cconsts = {}
+
+    # ---------------------------------------------------------------- constants hoisted out of the methods
+    def module_consts(self, file: str) -> dict:
+        """{name: IR} of module-level names bound exactly once to a literal-like display (a tuple of ReactionType members, a
+        table of (code, text) pairs, a number): reading such a name inside a method is reading the display"""
+        if file not in self._mconsts:
+            mod = self.pkg.modules.get(file)
+            out = {}
+            if mod is not None:
+                count = {}
+                for n in ast.walk(mod):
+                    if isinstance(n, ast.Name) and isinstance(n.ctx, (ast.Store, ast.Del)):
+                        count[n.id] = count.get(n.id, 0) + 1
+                    elif isinstance(n, (ast.Global, ast.Nonlocal)):
+                        for nm in n.names:
+                            count[nm] = count.get(nm, 0) + 2
+                    elif isinstance(n, ast.Call) and isinstance(n.func, ast.Attribute) and isinstance(n.func.value, ast.Name) \
+                            and n.func.attr in ("append", "extend", "add", "update", "insert", "pop", "remove", "clear", "sort", "reverse", "setdefault", "popitem", "discard"):
+                        count[n.func.value.id] = count.get(n.func.value.id, 0) + 2
+                    elif isinstance(n, (ast.Assign, ast.AugAssign)):
+                        for t in (n.targets if isinstance(n, ast.Assign) else [n.target]):
+                            if isinstance(t, ast.Subscript) and isinstance(t.value, ast.Name):
+                                count[t.value.id] = count.get(t.value.id, 0) + 2
+                # (names bound once in the whole module: a function-local of the same name disqualifies, which is the safe side)
+                for st in mod.body:
+                    if isinstance(st, ast.Assign) and len(st.targets) == 1 and isinstance(st.targets[0], ast.Name) and count.get(st.targets[0].id) == 1 \
+                            and not isinstance(st.value, (ast.Name, ast.Attribute)) and _literal_like(st.value):
+                        out[st.targets[0].id] = simp(_ev_literal(st.value, out))
+            self._mconsts[file] = out
+        return self._mconsts[file]
+
+    def class_consts(self, cls: str) -> dict:
+        """{("attr", self|cls, name): IR} for class-level tables (tuple / list / set / dict displays) that no method of the MRO
+        re-assigns through self/cls: `x in self._table` is `x in (<the display>)`"""
+        if cls not in self._cconsts:
+            out = {}
+            mro = [c for c in self.pkg.mro(cls) if c in self.pkg.classes]
+            stored = set()
+            for c in mro:
+                for fn in self.pkg.classes[c].methods.values():
+                    for n in ast.walk(fn):
+                        if isinstance(n, ast.Attribute) and isinstance(n.ctx, (ast.Store, ast.Del)) and isinstance(n.value, ast.Name) and n.value.id in ("self", "cls"):
+                            stored.add(n.attr)
+                        elif isinstance(n, ast.Call) and isinstance(n.func, ast.Name) and n.func.id in ("setattr", "delattr"):
+                            stored.add("*")
+            for c in reversed(mro):
+                ci = self.pkg.classes[c]
+                for nm, node in ci.attrs.items():
+                    if isinstance(node, (ast.Tuple, ast.List, ast.Set, ast.Dict)) and _literal_like(node) and nm not in stored and "*" not in stored \
+                            and not any(nm in self.pkg.classes[k].methods for k in mro):
+                        ir = simp(_ev_literal(node, self.module_consts(ci.file)))
+                        out[("attr", SELF, nm)] = ir
+                        out[("attr", ("param", "cls"), nm)] = ir
+                    else:
+                        out.pop(("attr", SELF, nm), None)
+                        out.pop(("attr", ("param", "cls"), nm), None)
+            self._cconsts[cls] = out
+        return self._cconsts[cls]
 
     # ---------------------------------------------------------------- enums
     def basic_types(self) -> dict:
@@ -178,22 +256,27 @@ class RateModel:
                     return None
                 _, f = self.pkg.resolve(cls, name)
                 return f
-            self._flows[key] = Flow(fn, self.pkg.cls(dc).file, keep_arms=True, resolver=resolver)
+            self._flows[key] = Flow(fn, self.pkg.cls(dc).file, keep_arms=True, resolver=resolver, consts=self.module_consts(self.pkg.cls(dc).file))
         return dc, fn, self._flows[key]
 
     def variants(self, cls: str, meth: str = "rateexpr", enumerate_conditions=True) -> list:
         dc, fn, fl = self.flow(cls, meth)
         file = self.pkg.cls(dc).file
         out = []
+        cc = self.class_consts(cls)
+
+        def K(x):
+            # class-level tables read through self/cls are the displays they are bound to
+            return simp(subst(x, cc)) if cc else simp(x)
         for f in fl.facts:
             if f.kind == "raise":
                 exc = show(f.value)[:80] if f.value else ""
-                out.append(Variant(cls, meth, dc, file, f.line, tuple((simp(c), p) for c, p in f.guards), {}, "raise", exc=exc))
+                out.append(Variant(cls, meth, dc, file, f.line, tuple((K(c), p) for c, p in f.guards), {}, "raise", exc=exc))
         for f in fl.facts:
             if f.kind != "return":
                 continue
-            base = tuple((simp(c), p) for c, p in f.guards)
-            v = simp(f.value)
+            base = tuple((K(c), p) for c, p in f.guards)
+            v = K(f.value)
             beaut = False
             if v[0] == "meth" and v[1] == SELF and v[2] == "_beautify" and len(v[3]) == 1:
                 beaut = True
